@@ -11,7 +11,8 @@ RULE = ("requests: word generators on unit states (each of the 256 single-bit Xo
         "chacha: jump/split-rich histories on ChaCha8/12/20 from stream ids at the 32- and 64-bit carry boundaries (low word 0xffffffff, 2^64-1, ...), every output and the serde-visible "
         "key/counter/stream/index compared with the model (jump proved = stream id + 1 mod 2^64); independent oracle: final stream id = initial + #jumps + #splits (mod 2^64), key unchanged. "
         "extra: split/clone twins - what the split-off generator draws first equals what a never-split twin with the same history draws (word draws and byte fills, every ChaCha buffer offset). "
-        "non-trivial = history contains a jump or split; distinct = distinct request line")
+        "non-trivial = history contains a jump or split; distinct = distinct request line"
+        " Since round 9: keystream attribution of jump / split histories with byte fills of 1..7 bytes before the jump (extra).")
 TRUSTED = ["kernel evaluation (decide +kernel) of the GF(2) certificates: x^(2^128) mod P = JUMP, P(T)=0 on the 256 unit states, x^(2^256-1)=1 and one inverse certificate per prime factor; Pratt certificates via Mathlib lucas_primality"]
 ASSUMPTIONS = ["that after a ChaCha jump nothing of the old stream is served (buffer invalidated) is decided by the keystream-attribution oracle shared with C03 (extra: jump / split at unaligned read offsets)"]
 
